@@ -32,6 +32,8 @@ pub struct Cfg {
     pub io_reverse: bool,
     /// forgetful leaf cache: 0 off, 1 odd page numbers miss, 2 even ones, 3 every second lookup
     pub leaf_amnesia: u8,
+    /// fill every buffer the page pool hands out with this byte first (0 = off)
+    pub pool_poison: u8,
 }
 
 impl Default for Cfg {
@@ -52,6 +54,7 @@ impl Default for Cfg {
             seg_size: 0,
             io_reverse: false,
             leaf_amnesia: 0,
+            pool_poison: 0,
         }
     }
 }
@@ -71,7 +74,7 @@ impl Cfg {
         json!({"buckets": self.buckets, "seed": self.seed, "cc": self.cc, "io_workers": self.io_workers,
                "rollback": self.rollback, "log_len": self.log_len, "warm_up": self.warm_up,
                "page_cache": self.page_cache, "leaf_cache": self.leaf_cache, "prepopulate": self.prepopulate,
-               "upper_levels": self.upper_levels, "preallocate": self.preallocate, "seg_size": self.seg_size, "io_reverse": self.io_reverse, "leaf_amnesia": self.leaf_amnesia})
+               "upper_levels": self.upper_levels, "preallocate": self.preallocate, "seg_size": self.seg_size, "io_reverse": self.io_reverse, "leaf_amnesia": self.leaf_amnesia, "pool_poison": self.pool_poison})
     }
     pub fn from_json(v: &Value) -> Self {
         let d = Cfg::default();
@@ -93,6 +96,7 @@ impl Cfg {
             seg_size: u("seg_size", d.seg_size),
             io_reverse: b("io_reverse", d.io_reverse),
             leaf_amnesia: u("leaf_amnesia", d.leaf_amnesia as u64) as u8,
+            pool_poison: u("pool_poison", d.pool_poison as u64) as u8,
         }
     }
     pub fn options(&self, dir: &Path) -> Options {
@@ -167,6 +171,7 @@ pub fn open_nomt<H: HashAlgorithm>(dir: &Path, cfg: &Cfg) -> anyhow::Result<Nomt
     nomt::verif::knobs::set_rollback_segment_size(cfg.seg_size);
     nomt::verif::io::set_reverse_completions(cfg.io_reverse);
     nomt::verif::knobs::set_leaf_cache_amnesia(cfg.leaf_amnesia);
+    nomt::verif::knobs::set_page_pool_poison(cfg.pool_poison);
     Nomt::<H>::open(cfg.options(dir))
 }
 
